@@ -49,7 +49,7 @@ def gen(tier, rng, boost=1):
     # chrono fields at every layout threshold of the MsgPack Timestamp extension / as ISO-8601 text; CSV tables whose saved
     # document is an exact multiple (+-1) of the stream readers' 256-byte chunk
     for archive in ("mp", "json", "xml", "csv"):
-        for target in (("vchrono",) if archive == "csv" else ("chrono", "vchrono")):
+        for target in (("vchrono", "vshape") if archive == "csv" else ("chrono", "vchrono", "shape", "vshape")):
             for _ in range(2 * n):
                 for src in ("mem", "stream"):
                     ops.append(f"rt.any {archive} {src} {target} {rng.randrange(1, 2 ** 31)}")
